@@ -310,6 +310,10 @@ func (matrix *SparseInt32Matrix) AsVector() Vector {
   return matrix.AsSparseInt32Vector()
 }
 func (matrix *SparseInt32Matrix) storageLocation() uintptr {
+  if matrix.values.Dim() == 0 {
+    // matrices without elements have no storage to share
+    return uintptr(unsafe.Pointer(matrix))
+  }
   return uintptr(unsafe.Pointer(matrix.values.AT(0).ptr))
 }
 /* const interface
